@@ -125,15 +125,16 @@ def result_shape(op, py_stat):
 # compiled level
 # ------------------------------------------------------------------------------------------------
 
-def build(ops, shapes):
-    """compile a wrapper for ops -> (sim | None, error text | None, vhdl)"""
+def build(ops, shapes, source="value"):
+    """compile a wrapper for ops -> (sim | None, error text | None, source text, vhdl); the simulator carries
+    the description of its inputs in sim.c19_io"""
     from ..cohdl_util import compile_source
     from ..vhdl.elab import compile_design
 
     wa = max(g.op_inputs(op)[0] for op in ops)
     wb = max(g.op_inputs(op)[1] for op in ops)
     widths = [None if s[0] == "bool" else s[2] - s[3] + 1 for s in shapes]
-    src = g.entity_source(ops, widths, wa, wb)
+    src, io = g.entity_source(ops, widths, wa, wb, source)
     res, _ = compile_source(src, entity="T")
     if not res.ok:
         return None, res.error, src, None
@@ -143,9 +144,43 @@ def build(ops, shapes):
         return None, "emitted VHDL is not well formed: " + txt, src, res.vhdl
     from ..vhdl import rt
     try:
-        return d.sim(), None, src, res.vhdl
+        sim = d.sim()
+        sim.c19_io = io
+        return sim, None, src, res.vhdl
     except rt.SimError as e:
         return None, f"SimError during initialisation: {e}", src, res.vhdl
+
+
+def drive(sim, wa, wb, a, b):
+    """apply one operand valuation; yields once per pattern of the unrelated bus bits (ref sources: all zeros,
+    all ones), after the outputs are valid"""
+    io = sim.c19_io
+    if io["mode"] == "bus":
+        oa, ob, W = io["oa"], io["ob"], io["W"]
+        used = ((1 << wa) - 1) << oa
+        val = a << oa
+        if ob is not None:
+            used |= ((1 << wb) - 1) << ob
+            val |= b << ob
+        elif wb:
+            sim.set("b", b, settle=False)
+        junk = ((1 << W) - 1) & ~used
+        patterns = (val, val | junk)
+    else:
+        patterns = (None,)
+        if wa and wb:
+            sim.set_many({"a": a, "b": b})
+        elif wa:
+            sim.set("a", a)
+        elif wb:
+            sim.set("b", b)
+        # no inputs: the initial settle of the simulator already evaluated the constants
+    for pat in patterns:
+        if pat is not None:
+            sim.set("dbus", pat)
+        if io["clk"]:
+            sim.clock("clk")
+        yield pat
 
 
 def simulate(sim, ops, shapes, stats):
@@ -155,38 +190,35 @@ def simulate(sim, ops, shapes, stats):
     wa = max(g.op_inputs(op)[0] for op in ops)
     wb = max(g.op_inputs(op)[1] for op in ops)
     uses = [g.op_inputs(op) for op in ops]
+    if getattr(sim, "c19_io", {}).get("clk"):
+        sim.set("clk", 0)
     for a in range(1 << wa):
         for b in range(1 << wb):
             try:
-                if wa and wb:
-                    sim.set_many({"a": a, "b": b})
-                elif wa:
-                    sim.set("a", a)
-                elif wb:
-                    sim.set("b", b)
-                # no inputs: the initial settle of the simulator already evaluated the constants
+                for _pat in drive(sim, wa, wb, a, b):
+                    for i, op in enumerate(ops):
+                        ua, ub = uses[i]
+                        # an op that does not read an input is only sampled once per value of the inputs it does read
+                        if (not ua and a) or (not ub and b):
+                            continue
+                        v = sim.get(f"o{i}")
+                        s = shapes[i]
+                        if v is None:
+                            stats[i].record(a, b, "ok", ("undefined",))
+                        elif s[0] == "bool":
+                            stats[i].record(a, b, "ok", ("bool", bool(v)))
+                        else:
+                            stats[i].record(a, b, "ok", ("fixed", s[1], s[2], s[3], int(v)))
             except rt.SimError as e:
                 return f"SimError at a={a} b={b}: {e}"
-            for i, op in enumerate(ops):
-                ua, ub = uses[i]
-                # an op that does not read an input is only sampled once per value of the inputs it does read
-                if (not ua and a) or (not ub and b):
-                    continue
-                v = sim.get(f"o{i}")
-                s = shapes[i]
-                if v is None:
-                    stats[i].record(a, b, "ok", ("undefined",))
-                elif s[0] == "bool":
-                    stats[i].record(a, b, "ok", ("bool", bool(v)))
-                else:
-                    stats[i].record(a, b, "ok", ("fixed", s[1], s[2], s[3], int(v)))
     return None
 
 
-def run_hw(ops, shapes, py_rejected, try_rejected=True):
+def run_hw(ops, shapes, py_rejected, try_rejected=True, source="value", skip_rejected=False):
     """-> list of OpStat (level hw), one per op.  Tries one wrapper for the whole batch, falls back to one
     wrapper per operation when the batch is rejected or fails at run time (to attribute the failure)."""
-    stats = [OpStat(op, "hw") for op in ops]
+    level = "hw" if source == "value" else f"hw-{source}"
+    stats = [OpStat(op, level) for op in ops]
     info = {"entities": 0, "rejected_entities": 0}
     todo = [i for i, s in enumerate(shapes) if s is not None]
     for i, s in enumerate(shapes):
@@ -198,12 +230,12 @@ def run_hw(ops, shapes, py_rejected, try_rejected=True):
     def attempt(idx):
         sub_ops = [ops[i] for i in idx]
         sub_shapes = [shapes[i] for i in idx]
-        sim, err, src, vhdl = build(sub_ops, sub_shapes)
+        sim, err, src, vhdl = build(sub_ops, sub_shapes, source)
         info["entities"] += 1
         if sim is None:
             info["rejected_entities"] += 1
             return err
-        sub_stats = [OpStat(op, "hw") for op in sub_ops]
+        sub_stats = [OpStat(op, level) for op in sub_ops]
         err = simulate(sim, sub_ops, sub_shapes, sub_stats)
         if err is not None:
             return err
@@ -214,6 +246,11 @@ def run_hw(ops, shapes, py_rejected, try_rejected=True):
     # operations the Python level rejected for every input are expected to be rejected by the compiler too:
     # they get a wrapper of their own so that they do not take the batch down with them
     alone = [i for i in todo if py_rejected[i]]
+    if skip_rejected:
+        # operand-source variants: what the Python level rejects outright is left to the `value` source
+        for i in alone:
+            stats[i].note = "not attempted: rejected at the Python level for every input (covered with the value source)"
+        alone = []
     if not try_rejected:
         # quick tier: where a rejection is acceptable anyway, the compiler is not asked again
         for i in alone:
@@ -511,6 +548,14 @@ def work(task):
         for k in inf:
             info[k] += inf[k]
         out.extend(st.export() for st in stats)
+    # operand sources: the same operations with xa / xb obtained in other ways (one wrapper per source)
+    for source in (task[6] if len(task) > 6 else ()):
+        batch = [op for op in ops if g.hw_first_type(op) is not None and not (op[0] == "resize" and op[4] is None)]
+        shapes = [result_shape(op, py[op]) for op in batch]
+        stats, inf = run_hw(batch, shapes, [py[op].exc == py[op].evals for op in batch], source=source, skip_rejected=True)
+        for k in inf:
+            info[k] += inf[k]
+        out.extend(st.export() for st in stats)
     info["cpu_ms"] = int((time.process_time() - cpu0) * 1000)
     return {"task": task, "stats": out, "info": info}
 
@@ -536,11 +581,16 @@ def bounds(run: Run):
     if dev:
         lo, hi, mw = (int(x) for x in dev.split(","))
         run.capped = True
-        return dict(lo=lo, hi=hi, maxw=mw, maxn=mw, hw_lo=lo, hw_hi=hi, hw_maxw=mw, hw_extra_mod=0, seq=SEQ_QUICK)
+        return dict(lo=lo, hi=hi, maxw=mw, maxn=mw, hw_lo=lo, hw_hi=hi, hw_maxw=mw, hw_extra_mod=0, seq=SEQ_QUICK, src_fmts=SRC_QUICK)
     if run.thorough:
-        return dict(lo=-4, hi=4, maxw=6, maxn=6, hw_lo=-4, hw_hi=4, hw_maxw=6, hw_extra_mod=0, seq=SEQ_THOROUGH)
-    return dict(lo=-3, hi=3, maxw=5, maxn=5, hw_lo=-2, hw_hi=2, hw_maxw=5, hw_extra_mod=6, seq=SEQ_QUICK)
+        return dict(lo=-4, hi=4, maxw=6, maxn=6, hw_lo=-4, hw_hi=4, hw_maxw=6, hw_extra_mod=0, seq=SEQ_THOROUGH, src_fmts=SRC_THOROUGH)
+    return dict(lo=-3, hi=3, maxw=5, maxn=5, hw_lo=-2, hw_hi=2, hw_maxw=5, hw_extra_mod=12, seq=SEQ_QUICK, src_fmts=SRC_QUICK)
 
+
+# operand sources (hw level): every ordered pair of these formats x every source of g.SOURCES
+SRC_QUICK = ((1, -1), (0, 0), (1, 0), (0, -1))
+SRC_SOURCES_QUICK = g.SOURCES[1:]
+SRC_THOROUGH = tuple(g.formats(-2, 2, 4))
 
 # operation sequences: (level, qualifier, format, depth of the per-take alphabets, depth of the mixed alphabet)
 SEQ_QUICK = (
@@ -637,11 +687,13 @@ def main(run: Run):
                     # beyond the complete hw bound: a seed-selected stratum of the remaining pairs
                     do_hw = (fmts.index(A) * 31 + fmts.index(B) * 7 + run.seed) % bd["hw_extra_mod"] == 0
                     extra += do_hw
-                tasks.append(("pair", kind, A, B, run.thorough, do_hw))
+                srcs = (g.SOURCES[1:] if run.thorough else SRC_SOURCES_QUICK) if (A in bd["src_fmts"] and B in bd["src_fmts"]) else ()
+                tasks.append(("pair", kind, A, B, run.thorough, do_hw or bool(srcs), srcs))
     run.count("hw_pairs_complete_bound", 2 * len(hw_fmts) ** 2)
+    run.count("hw_operand_source_pairs", 2 * len(bd["src_fmts"]) ** 2)
     run.count("hw_pairs_seed_selected_extra", extra)
     # big tasks first for a better schedule
-    tasks.sort(key=lambda t: -(g.width(t[2]) + (g.width(t[3]) if t[0] == "pair" else 3) + (4 if t[-1] is True else 0)))
+    tasks.sort(key=lambda t: -(g.width(t[2]) + (g.width(t[3]) if t[0] == "pair" else 3) + (4 if (len(t) > 5 and t[5]) else 0) + (6 if (len(t) > 6 and t[6]) else 0)))
     stasks, n_prog = seq_tasks(bd)
     tasks = stasks + tasks  # the sequence wrappers are the longest single tasks: schedule them first
     run.count("sequence_programs", n_prog)
@@ -742,6 +794,7 @@ def main(run: Run):
               "operand value at the Python level; the same operations in compiled wrappers under vsim for every "
               f"format pair inside {bd['hw_lo']}..{bd['hw_hi']}, width<={bd['hw_maxw']}"
               + (f" plus a seed-selected 1/{bd['hw_extra_mod']} of the remaining pairs" if bd["hw_extra_mod"] else "")
+              + f"; operand sources {g.SOURCES[1:] if run.thorough else SRC_SOURCES_QUICK} for every ordered pair of the formats {bd['src_fmts']}"
               + "; operation sequences (value-returning operations on a std.Variable/std.Signal that is re-assigned before "
               "the results are used): all well-typed sequences up to the listed depth over {r=T(v), v:=b, v:=r, s=r+v, e=(r==v)} "
               "per take operation T and over the mixed alphabet, all inputs: " + repr(bd["seq"])),
@@ -769,27 +822,17 @@ def replay(run: Run, data):
         if shape is None:
             print("cannot rebuild the wrapper: result format unknown")
             return True
-        sim, err, src, vhdl = build([op], [shape])
-        if sim is None:
-            status, out = "exc", err
+        source = lvl[3:] or "value"
+        st = run_hw([op], [shape], [False], source=source)[0][0]
+        cls = st.classes.get(data.get("input_class", ""))
+        if st.exc:
+            status, out = "exc", st.first_exc[2]
+        elif st.bad:
+            fb = (cls[2] if cls and cls[2] else st.first_bad)
+            print(f"reproduced: {lvl} {op_key(op)} a={fb[0]:#b} b={fb[1]:#b}: {fb[2]}")
+            return False
         else:
-            from ..vhdl import rt
-            wa, wb = g.op_inputs(op)
-            try:
-                if wa:
-                    sim.set("a", a)
-                if wb:
-                    sim.set("b", b)
-                v = sim.get("o0")
-                status = "ok"
-                if v is None:
-                    out = ("undefined",)
-                elif shape[0] == "bool":
-                    out = ("bool", bool(v))
-                else:
-                    out = ("fixed",) + tuple(shape[1:]) + (int(v),)
-            except rt.SimError as e:
-                status, out = "exc", f"SimError: {e}"
+            return True
     if status == "exc":
         if g.must_accept(op):
             print(f"reproduced: {lvl} {g.op_key(op)} rejected: {out}")
